@@ -134,7 +134,7 @@ theorem shStep_op_plain (s : Sh) (o : Op) (next : Option Tok)
             some { s with needOperand := true, content := .other, prev := some (.op o'), prevCastEnd := false }
           else none
         else if has o'.ty T.rightUnary then
-          if next.isNone || isPairEndTok next || isOperatorTok next then
+          if (next.isNone || isPairEndTok next || isOperatorTok next) && !(isPostfixTok s.prev && isIncDecTok next) then
             some { s with content := .other, prev := some (.op o'), prevCastEnd := false }
           else none
         else none := by
@@ -537,8 +537,10 @@ theorem step_infix (s s' : Sh) (σ σ' : St) (o : Op) (next : Option Tok) (consu
       by_cases hr : has o'.ty T.rightUnary = true
       · -- postfix
         simp only [hr, if_true] at hsh
-        by_cases hcond : (next.isNone || isPairEndTok next || isOperatorTok next) = true
-        · simp only [hcond, if_true, Option.some.injEq] at hsh
+        by_cases hcond0 : ((next.isNone || isPairEndTok next || isOperatorTok next) && !(isPostfixTok s.prev && isIncDecTok next)) = true
+        · simp only [hcond0, if_true, Option.some.injEq] at hsh
+          have hcond : (next.isNone || isPairEndTok next || isOperatorTok next) = true := by
+            simp only [Bool.and_eq_true] at hcond0; exact hcond0.1
           obtain ⟨r1, r2⟩ := ru_facts2 o' hr
           have hnext : (has o.ty T.increment || has o.ty T.decrement) = true →
               next.isNone = true ∨ isPairEndTok next = true ∨ isOperatorTok next = true := by
@@ -566,7 +568,7 @@ theorem step_infix (s s' : Sh) (σ σ' : St) (o : Op) (next : Option Tok) (consu
             refine ⟨rfl, Or.inr ⟨rfl, _, _, _, rfl⟩, Or.inr ⟨rfl, _, _, _, rfl, rfl⟩⟩
           · show s.pendingQ = questCount (fr :: (pre' ++ baseFrames cur.base))
             rw [questCount_reducible fr _ rfl, c5]; exact hinv.pending
-        · simp [hcond] at hsh
+        · rw [if_neg hcond0] at hsh; exact absurd hsh (by simp)
       · simp [hr] at hsh
 
 end Occa.Expr
